@@ -15,6 +15,17 @@ def generate(rng, tier, shard, nshards):
             for ctx in fam.strings(G["V"], 2):
                 yield gops.event("mask", {"sr": "Bool", "G": G, "ctx": list(ctx), "alg": alg}, site=f"BoolCFGLM[{alg}].p_next",
                                  feat="tlc-family")
+    # left-corner cycles through the start symbol with re-entry (the predictive filter of the Earley back-end):
+    # many grammars, short contexts, three rule orders each
+    for gi in range(14 if tier == "quick" else 100):
+        g0 = fam.rand_cfg(rng, gops.SR["Bool"], shape="ring")
+        for perm in range(3):
+            g = fam.permuted(g0, rng) if perm else g0
+            G, _ = cfg_proj(g)
+            for alg in ("earley", "cky"):
+                for ctx in fam.strings(g.V, 2):
+                    yield gops.event("mask", {"sr": "Bool", "G": G, "ctx": [str(x) for x in ctx], "alg": alg},
+                                     site=f"BoolCFGLM[{alg}].p_next", feat="ring/" + fam.feature_key(g))
     n = 14 if tier == "quick" else 140
     L = 3 if tier == "quick" else 4
     for gi in range(n):
